@@ -39,6 +39,7 @@ type Solver struct {
 	Queries   int
 	NSat      int
 	NUnsat    int
+	Killed    int
 	NUnknown  int
 	Errors    int
 	Time      time.Duration
@@ -245,6 +246,16 @@ func (s *Solver) readLine() (string, bool) {
 
 func (s *Solver) readResult() Result {
 	sawErr := false
+	// hard watchdog: z3's :timeout is not honoured inside some preprocessing phases on very large terms;
+	// a query that exceeds three times its budget is killed and counts as unknown (never as success)
+	if s.cmd != nil && s.TimeoutMs > 0 {
+		proc := s.cmd.Process
+		wd := time.AfterFunc(time.Duration(3*s.TimeoutMs+5000)*time.Millisecond, func() {
+			s.Killed++
+			proc.Kill()
+		})
+		defer wd.Stop()
+	}
 	for {
 		line, ok := s.readLine()
 		if !ok {
